@@ -2,7 +2,7 @@
    The charset of the file is an oracle: [dec] decodes a byte string, [enc] encodes one character. *)
 From Coq Require Import NArith List Bool.
 From I18n Require Import Lib.Outcome Model.PoUnescape Model.PoParser Spec.PoSyntax Proofs.PoUnescape Proofs.PoStrings
-  Proofs.PoParser Proofs.PoWitness Proofs.PoLex.
+  Proofs.PoParser Proofs.PoWitness Proofs.PoLex Model.PoLexer Proofs.PoOpen Proofs.PoDetect Proofs.PoLoad.
 Import ListNotations.
 Local Open Scope N_scope.
 
@@ -162,6 +162,47 @@ Theorem C10_load_render_exact : forall O sp c raws,
   parse_lines O raws = Ok (mkPo (fst (catalog_value c)) (map to_entry (snd (catalog_value c))) false).
 Proof. exact load_render_exact. Qed.
 Print Assumptions C10_load_render_exact.
+
+(* (3) Codecs.open and detect_encoding.  The text of the file: every physical line (LF-free) followed by LF.
+   Codecs.open's LF-only splitting, comment normalisation and pending-comment buffering hand the parser a file of
+   the same line bodies (only white-space lines at the end are dropped), so the catalog is rebuilt from the TEXT. *)
+Theorem C10_codecs_open_file : forall bodies pls, file_of bodies pls -> Forall (fun l => ~ In 10 l) pls ->
+  Forall body_ok bodies -> bodies <> [] -> ~ tc_shaped (last bodies []) ->
+  file_of bodies (codecs_open_text (flat_map (fun l => l ++ [10]) pls)).
+Proof. exact codecs_open_file. Qed.
+Print Assumptions C10_codecs_open_file.
+
+Theorem C10_open_load_render : forall O sp c pls,
+  ascii_compatible (o_dec O) -> seps_ok sp -> scatalog_ok (o_dec O) c -> nplurals_le_10 c -> sc_entries c <> [] ->
+  file_of (render_bodies sp c) pls -> Forall (fun l => ~ In 10 l) pls ->
+  parse_lines O (codecs_open_text (flat_map (fun l => l ++ [10]) pls)) =
+  Ok (mkPo (fst (catalog_value c)) (map (fun e => to_entry (tool_view e)) (snd (catalog_value c))) false).
+Proof. exact open_load_render. Qed.
+Print Assumptions C10_open_load_render.
+
+(* detect_encoding: lines before the declaration do not contain Content-Type:, the declaration
+   a Content-Type: b _charset=NAME tail  sits on one physical line (no C in a, no = in b), NAME is known *)
+Theorem C10_detect_encoding : forall lookup pre a b name tail rest,
+  Forall (fun l => ~ In 10 l /\ ~ contains s_content_type (l ++ [10])) pre ->
+  ~ In 67 a -> ~ In 10 a -> b <> [] -> ~ In 61 b -> ~ In 10 (b ++ s_charset ++ name ++ tail) ->
+  name <> [] -> Forall (fun c => charset_char c = true) name ->
+  (match tail with [] => True | c :: _ => charset_char c = false end) ->
+  lookup name = true ->
+  detect_encoding lookup (flat_map (fun l => l ++ [10]) (pre ++ [a ++ s_content_type ++ b ++ s_charset ++ name ++ tail]) ++ rest) = name.
+Proof. exact detect_encoding_decl. Qed.
+Print Assumptions C10_detect_encoding.
+
+(* the whole loader of Checker.check (no retry needed): bytes -> declared charset -> text -> lines -> catalog;
+   the codec machinery is the oracle C *)
+Theorem C10_load_po_render : forall C raw enc sp c pls,
+  detect_encoding (c_lookup C) raw = enc ->
+  c_decode C (if c_ascii_compatible C enc then enc else s_ascii) raw = Some (flat_map (fun l => l ++ [10]) pls) ->
+  ascii_compatible (c_decode C enc) -> seps_ok sp -> scatalog_ok (c_decode C enc) c -> nplurals_le_10 c -> sc_entries c <> [] ->
+  file_of (render_bodies sp c) pls -> Forall (fun l => ~ In 10 l) pls ->
+  load_po C raw =
+  Ok (mkLoaded enc (mkPo (fst (catalog_value c)) (map (fun e => to_entry (tool_view e)) (snd (catalog_value c))) false), false).
+Proof. exact load_po_render. Qed.
+Print Assumptions C10_load_po_render.
 
 (* non-vacuity *)
 Definition latin1 : decoder := fun b => Some b.
